@@ -278,6 +278,15 @@ def minimise(exe, text, sig, outdir, budget=300):
                 if sl.startswith("stream ") and len(sl.split()[1]) > 2 * elen:
                     cand = list(head); cand[si] = "stream " + sl.split()[1][:2 * elen]
                     if still(cand, ops): head = cand
+    # 5. value-level shrinking: a smaller generation budget for the seeded value (fill:<seed>:<budget>)
+    for hi, hl in enumerate(head):
+        m = re.match(r"^value fill:(\d+):(\d+)$", hl)
+        if not m: continue
+        vseed, b = m.group(1), int(m.group(2))
+        for nb in sorted(set(x for x in (1, 4, 16, b // 16, b // 4, b // 2) if 0 < x < b)):
+            cand = list(head); cand[hi] = "value fill:%s:%d" % (vseed, nb)
+            if still(cand, ops):
+                head = cand; break
     try: os.unlink(tmp)
     except OSError: pass
     return plan_text(head, ops), runs[0]
